@@ -1,5 +1,6 @@
 // dmc explorer: parent process. Stateless DFS with iterative deviation bounding over forked children.
 // Compiled without sanitizers and without the shim. Provides main().
+#include <ctype.h>
 #include <errno.h>
 #include <fcntl.h>
 #include <signal.h>
@@ -333,7 +334,23 @@ static std::string short_msg(const std::string& m) {
   size_t e = s.find('\n');
   if (e != std::string::npos) s = s.substr(0, e);
   if (s.size() > 300) s.resize(300);
-  return s;
+  // drop what varies between two runs of the same schedule: pids and raw addresses
+  std::string o;
+  for (size_t i = 0; i < s.size(); i++) {
+    if (s.compare(i, 4, "pid=") == 0) {
+      o += "pid=N";
+      i += 4;
+      while (i < s.size() && isdigit((unsigned char)s[i])) i++;
+      i--;
+    } else if (s.compare(i, 2, "0x") == 0) {
+      o += "0xN";
+      i += 2;
+      while (i < s.size() && isxdigit((unsigned char)s[i])) i++;
+      i--;
+    } else
+      o += s[i];
+  }
+  return o;
 }
 
 static std::string write_replay(const std::vector<McRec>& recs, int status, const std::string& msg, int devs, int serial) {
